@@ -1253,6 +1253,13 @@ class AsyncBackgroundBatcher(Generic[A_contra, R_co]):
                 try:
                     async for key, result in results:
                         fut = futs[key]
+                        if isinstance(result, StopIteration):
+                            # Can't be raised out of a future: awaiting
+                            # it would return normally instead (or for a
+                            # plain StopIteration it can't even be set)
+                            err = RuntimeError("StopIteration as result")
+                            err.__cause__ = result
+                            result = err
                         if isinstance(result, Exception):
                             fut.set_exception(result)
                         else:
